@@ -80,7 +80,9 @@ def entries : List Entry := [
   { name := "cbMetadata.Save/create", site := "doc_op.go:CreateDocument", post := .saveCreate, bestEffort := true },
   { name := "cbMetadata.Load", site := "doc_op.go:GetXattrs", post := .load, bestEffort := true },
   { name := "cbMetadata.Clear", site := "doc_op.go:DeleteDocument", bestEffort := true },
-  { name := "cbMembership.register", site := "doc_op.go:CreatePath", post := .register, bestEffort := true } ]
+  { name := "cbMembership.register", site := "doc_op.go:CreatePath", post := .register, bestEffort := true },
+  -- the exported helper called with `context.Background()`, exactly as cbMetadata.Load l.84 does (deadline class bg5)
+  { name := "GetXattrs.bg", site := "doc_op.go:GetXattrs", bestEffort := true } ]
 
 /-- error codes used for `Outcome.err` in the wire scripts -/
 def codeInternal : Nat := 1
@@ -162,6 +164,13 @@ def allowed (e : Entry) (w : Wrapper) (b : Beh) (dclass : String) (f7 : Option S
   -- `timeout` and err == nil; the callback turns that into "some services are not healthy"
   let outs := if e.post == .ping && (b == .silent || b == .delayLong) then outs ++ [("unhealthy", .ontime)]
               else if e.post == .ping && b == .drop then outs ++ [("timeout", .ontime)] else outs
+  -- bg5 + silent.  The LTS has nothing to offer here: without a ctx deadline the waiter of a silent server
+  -- never leaves `select` (Props/C20 `returns_by_deadline_refuted_for_background`), so `silentActs` has no
+  -- final state.  What ends the real call is gocbcore's OWN deadline, `Deadline: time.Now().Add(5 s)` of
+  -- doc_op.go GetXattrs l.186: gocbcore completes the operation with its time-out error at that instant.
+  -- TRUSTED environment fact about gocbcore (assumption list of C20), not derived from the model; the
+  -- harness classifies the real time against those 5 s, hence `ontime`.
+  let outs := if dclass == "bg5" && b == .silent then [(postClass e.post (.srvErr codeGocbTimeout), .ontime)] else outs
   outs.eraseDups
 
 def kvArg (args : List String) (k : String) : Option String :=
@@ -180,7 +189,8 @@ def obsOfWire (b : Beh) (cls : String) (t : TimeClass) (leak : Nat) : Spec.C20.O
   let res : Res :=
     if cls == "timeout" || cls == "panic:timeout" then .deadline
     else if cls == "canceled" then .canceled
-    else if cls == "other-error" || cls == "ok-wrong-data" || cls == "panic:other" || cls == "panic:other-error" then .other
+    else if cls == "other-error" || cls == "ok-wrong-data" || cls == "panic:other" || cls == "panic:other-error"
+      || cls == "hang" then .other
     else .nil_
   { imm := false,
     completes := (match b with | .silent | .delayLong | .tmpfailAlways | .drop => .maybe | _ => .yes),
@@ -214,6 +224,9 @@ def hAoWire (args : List String) (real : Option String) : Option Out := do
         else "FAIL C20.success-unconfirmed"
       else if c == "ok-unconfirmed" then "FAIL C20.success-unconfirmed"
       else if c == "ok-wrong-data" then "FAIL C20.outcome-exact"
+      -- a call without ctx deadline (bg5) under a silent server must be back by gocbcore's 5 s + margin with
+      -- an error; `hang` = the harness gave up waiting for it.  (Success is caught above, `late` below.)
+      else if c == "hang" && dclass == "bg5" then "FAIL C20.background-call-hangs"
       else match check (obsOfWire b c t leak) with
         | some cl => s!"FAIL C20.{cl}"
         | none => "ok"
